@@ -8,7 +8,7 @@ use white_whale_std::vault_network::vault::{CallbackMsg, ExecuteMsg};
 
 use crate::{
     error::VaultError,
-    state::{CONFIG, LOAN_COUNTER},
+    state::{CONFIG, LOAN_COUNTER, LOAN_FEES_RETAINED, LOAN_FEES_RETAINED_AT_START},
 };
 
 pub fn flash_loan(
@@ -25,10 +25,16 @@ pub fn flash_loan(
     }
 
     // increment loan counter
-    LOAN_COUNTER.update::<_, StdError>(deps.storage, |c| {
+    let loan_depth = LOAN_COUNTER.update::<_, StdError>(deps.storage, |c| {
         Ok(c.checked_add(1)
             .ok_or_else(|| OverflowError::new(cosmwasm_std::OverflowOperation::Add, c, 1))?)
     })?;
+
+    // remember the fees retained so far, the fees of loans nested in this one are due on top of its own
+    let fees_retained = LOAN_FEES_RETAINED
+        .may_load(deps.storage)?
+        .unwrap_or_default();
+    LOAN_FEES_RETAINED_AT_START.save(deps.storage, loan_depth, &fees_retained)?;
 
     // store current balance for after trade profit check
     let old_balance = match config.asset_info.clone() {
